@@ -9,7 +9,7 @@
    Word-level index bounds (bitmaps, rank indexes) are below this model: they are
    covered by the correspondence, where a Go panic is an observable the model
    never predicts. *)
-From Slim Require Import Base Keys Model QueryProofs ConsistProofs.
+From Slim Require Import Base Keys Model QueryProofs ConsistProofs Flat FlatProofs.
 
 Theorem C10_total_and_consistent :
   forall (ropt : raw_opt) (keys : list key) (vals : option (list (list byte))) (T : trie) (q : key),
@@ -24,6 +24,24 @@ Theorem C10_total_and_consistent :
                  val_bytes v = supplied vals i /\ (vals = None -> v = None)).
 Proof. intros ropt keys vals T q. exact (lookups_total_consistent (normalize ropt) keys vals T q). Qed.
 Print Assumptions C10_total_and_consistent.
+
+(* One layer closer to the code: GetID and searchID as the Go code runs them - loops
+   over node ids in which the next node is "first child id + rank of the label in
+   the node's label bitmap", leftMost/rightMost by first/last child id, getNode by
+   id (Flat.v) - never hit an id that is not a node, never run out of fuel, and
+   return exactly the ids of the nodes the tree recursion returns. *)
+Theorem C10_getid_id_loop :
+  forall (ropt : raw_opt) keys vals T q,
+    build (normalize ropt) keys vals = Ok T -> fgetid T q = Ok (getid T q).
+Proof. intros ropt keys vals T q. exact (fgetid_getid (normalize ropt) keys vals T q). Qed.
+Print Assumptions C10_getid_id_loop.
+
+Theorem C10_searchid_id_loop :
+  forall (ropt : raw_opt) keys vals T q,
+    build (normalize ropt) keys vals = Ok T ->
+    fsearchid T q = Ok (let '(l, e, rr) := searchid T q in (oid l, oid e, oid rr)).
+Proof. intros ropt keys vals T q. exact (fsearchid_searchid (normalize ropt) keys vals T q). Qed.
+Print Assumptions C10_searchid_id_loop.
 
 (* non-vacuity: a false positive in filter mode is consistent across the APIs *)
 Definition ex_keys : list key := [ ["097"%byte]; ["097"%byte; "098"%byte; "099"%byte]; ["098"%byte] ].
